@@ -290,6 +290,24 @@ def site_bodies():
         "self-assign-in-if": [("if", ("bool", True), [asg("cv", ("bin", "*", cv, I(2))), ("print", cv)], None), ("return", cv)],
         "self-opassign": [asg("t", I(0)), asg("t", cv), ("opassign", V("t"), "+=", cv), ("return", V("t"))],
         "selfcall-arg": [("return", cv)],
+        # other captured kinds (declared by the owner next to cv): a list, a string, a bool, a function
+        "setindex-value": [asg("l", ("list", [I(0), I(0)]), "[int...]"), ("setindex", V("l"), I(0), cv), ("return", ("index", V("l"), I(0)))],
+        "captured-list-index": [("return", ("bin", "+", ("index", V("lc"), I(1)), cv))],
+        "captured-list-method": [("return", ("bin", "+", ("method", V("lc"), "len", []), cv))],
+        "captured-list-push": [("if", ("bin", "<", ("method", V("lc"), "len", []), I(4)), [("expr", ("method", V("lc"), "push", [cv]))], None),
+                               ("return", ("method", V("lc"), "len", []))],
+        "captured-str-method": [("return", ("bin", "+", ("method", V("cs"), "len", []), cv))],
+        "captured-str-concat": [asg("s2", ("bin", "+", V("cs"), ("str", "!"))), ("return", ("method", V("s2"), "len", []))],
+        "captured-bool-not": [("if", ("not", V("cb")), [("return", I(1))], None), ("return", I(0))],
+        "captured-bool-and": [("if", ("bin", "&&", V("cb"), ("bin", ">", cv, I(0))), [("return", I(1))], None), ("return", I(0))],
+        "captured-callee": [("return", call("cf", cv))],
+        "captured-callee-only": [("return", call("cf", I(3)))],
+        "is-operand": [("if", ("is", cv, cv), [("return", I(1))], None), ("return", I(0))],
+        "map-key-literal": [asg("m", ("maplit", "int", "int", [(cv, I(5))])), ("return", ("method", V("m"), "len", []))],
+        "typed-assign-rhs": [asg("t", cv, "int"), ("return", V("t"))],
+        "return-in-loop": [("from", I(0), I(3), False, None, None, [("return", cv)]), ("return", I(0))],
+        "while-body": [asg("k", I(0)), asg("s", I(0)), ("while", ("bin", "<", V("k"), I(2)), [asg("s", ("bin", "+", V("s"), cv)), asg("k", ("bin", "+", V("k"), I(1)))]),
+                       ("return", V("s"))],
     }
     return B
 
@@ -340,9 +358,13 @@ def site_program(site, nesting, owner_kind):
     else:
         use = [("print", call("cl")), ("print", V("cv")), asg("cv", I(2)), ("print", call("cl")), ("print", V("cv")),
                ("print", ("method", V("cl"), "is_closure", []))]
+    extra = [asg("lc", ("list", [V("p") if owner_kind != "module" else I(1), I(7)]), "[int...]"), asg("cs", ("str", "ab")),
+             asg("cb", ("bool", True)), asg("cf", fn([("q", "int")], "int", [("return", ("bin", "+", V("q"), I(1)))]))]
+    if not any(n in repr(body) for n in ("'lc'", "'cs'", "'cb'", "'cf'")):
+        extra = []
     if owner_kind == "escaped":
         # the closure outlives the execution of its owner: it is returned and called after the owner has returned
-        owner = fn([("p", "int")], FN0_, [asg("cv", V("p"))] + make + [("return", V("cl"))])
+        owner = fn([("p", "int")], FN0_, [asg("cv", V("p"))] + extra + make + [("return", V("cl"))])
         if esc:
             return [asg("own", owner), asg("e1", call("own", I(1))), asg("k1", call("e1")), ("print", call("k1")), ("print", call("k1")),
                     asg("k2", call("e1")), ("print", call("k2")), ("print", call("k1")),
@@ -352,8 +374,8 @@ def site_program(site, nesting, owner_kind):
                 asg("e2", call("own", I(5))), ("print", call("e2")), ("print", call("e1")),
                 ("print", ("method", V("e1"), "is_closure", [])), ("print", ("str", "end"))]
     if owner_kind == "module":
-        return [asg("cv", I(1))] + make + use + [("print", ("str", "end"))]
-    owner = fn([("p", "int")], "int", [asg("cv", V("p"))] + make + use + [("return", V("cv"))])
+        return [asg("cv", I(1))] + extra + make + use + [("print", ("str", "end"))]
+    owner = fn([("p", "int")], "int", [asg("cv", V("p"))] + extra + make + use + [("return", V("cv"))])
     if owner_kind == "function":
         return [asg("own", owner), ("print", call("own", I(1))), ("print", call("own", I(0))), ("print", ("str", "end"))]
     # method
@@ -371,7 +393,7 @@ class C07(EHistCheck):
             "closures; counter factory with two instances and re-creation; three nesting levels with a closure created by a closure; closures "
             "created in a method, stored in a list and passed as arguments; the shadowing family), de-duplicated on the values of the "
             "template's observer expressions, every transition replayed on the real CLI; (b) capture-site matrix: the captured variable is "
-            "used only inside one of 36 AST node kinds, with the closure created 1-3 levels below the owner (module, function, method, or "
+            "used only inside one of 51 AST node kinds (incl. captured lists, strings, booleans and functions as receiver / operand / callee), with the closure created 1-3 levels below the owner (module, function, method, or "
             "escaped: returned and called after the owner has returned), the owner assigning the variable after the closure was created; the "
             "same matrix with the site preceded, inside the closure, by a shadowing local / a plain self-assignment / a modify / a block-local "
             "shadow of the captured name (so that inner closures created afterwards must bind the closure's own local); a third family in which "
